@@ -947,7 +947,19 @@ func genCliScenario(r *Rng, o *Out, idx int) *cliScenario {
 		if r.Chance(1, 4) {
 			ign = append(ign, ignLoc+"/") // a different string: ignores nothing of ignLoc
 		}
-		sc.opts = append(sc.opts, cliOpt{kind: "ign", locs: ign})
+		if r.Chance(1, 2) {
+			// two ignore options (say a shared default list and the caller's own): both lists apply,
+			// whichever comes first
+			other := cliOpt{kind: "ign", locs: []string{pick(r, append(locs, "https://never-seen.example"))}}
+			if r.Bool() {
+				sc.opts = append(sc.opts, cliOpt{kind: "ign", locs: ign}, other)
+			} else {
+				sc.opts = append(sc.opts, other, cliOpt{kind: "ign", locs: ign})
+			}
+			o.count("cfg.ignored.twoOptions")
+		} else {
+			sc.opts = append(sc.opts, cliOpt{kind: "ign", locs: ign})
+		}
 		o.count("cfg.ignored")
 	}
 	withCB := len(sc.opts) < 5 && r.Chance(2, 3) && !fixedLeak
